@@ -130,7 +130,7 @@ def _corr_ideal(ctx):
         images = np.stack(imgs, axis=1)                   # K, F, D, T
         noise = np.stack(nois)                            # F, D, T
         ideal = (owner[None, :] == np.arange(K)[:, None]).astype(np.float64)          # K, T
-        mask_fkt = np.broadcast_to(ideal[None], (F, K, T)).copy()
+        mask_fkt = np.broadcast_to(ideal[None], (F, K, T)).copy(order='K')
         psd = get_power_spectral_density_matrix(Y, mask_fkt)                           # F, K, D, D   (real code)
         p = np.array([np.sum(owner == j) for j in range(K)]) / T
         ctx.count(f'corr-ideal-K{K}-D{D}-F{F}-{"equal" if equal else "unequal"}-frames')
